@@ -246,6 +246,15 @@ def effective_cmp(atom, pol):
     op, l, r = c
     if not pol:
         op = NEG[op]
+    a = strip_cast(atom)
+    if isinstance(a, dict) and a.get("unsigned"):
+        # on unsigned operands x <= 0 is x == 0, x > 0 is x != 0, x < 1 is x == 0, x >= 1 is x != 0
+        rv = const_val(r)
+        if rv == 0 and op in ("<=", ">"):
+            op = {"<=": "==", ">": "!="}[op]
+        elif rv == 1 and op in ("<", ">="):
+            op = {"<": "==", ">=": "!="}[op]
+            r = {"k": "c", "v": "0"}
     return op, l, r
 
 
